@@ -45,7 +45,7 @@ inductive Err where
   deriving Repr, DecidableEq
 
 /-- Outcome and number of provider calls. -/
-def M (α : Type) : Type := Outcome Err α × Nat
+abbrev M (α : Type) : Type := Outcome Err α × Nat
 
 @[inline] def ret {α : Type} (a : α) : M α := (.ok a, 0)
 @[inline] def fail {α : Type} (e : Err) : M α := (.err e, 0)
@@ -58,10 +58,6 @@ def M (α : Type) : Type := Outcome Err α × Nat
   | .ok a => ((f a).1, x.2 + (f a).2)
   | .err e => (.err e, x.2)
   | .panic w => (.panic w, x.2)
-
-instance : Monad M where
-  pure := ret
-  bind := bind
 
 /-- Add `n` provider calls to a computation's count (used by accumulator-style loops). -/
 @[inline] def addCost {α : Type} (n : Nat) (x : M α) : M α := (x.1, n + x.2)
@@ -111,9 +107,22 @@ structure Dev where
 
 def Dev.prov (d : Dev) : Prov := ⟨d.rd, d.cs⟩
 
+/-- A computation that may write: outcome, provider calls, and the device afterwards. The device is returned
+    whatever the outcome: words written before an error or a panic stay written. -/
+abbrev MW (α : Type) : Type := M α × Dev
+
+@[inline] def bindW {α β : Type} (x : MW α) (f : α → Dev → MW β) : MW β :=
+  match x.1.1 with
+  | .ok a => (((f a x.2).1.1, x.1.2 + (f a x.2).1.2), (f a x.2).2)
+  | .err e => ((.err e, x.1.2), x.2)
+  | .panic w => ((.panic w, x.1.2), x.2)
+
+/-- A read-only computation inside a writing one. -/
+@[inline] def liftW {α : Type} (d : Dev) (x : M α) : MW α := (x, d)
+
 /-- `EepromDataProvider::write_word` (in-memory: never fails). -/
-def writeWord (d : Dev) (w b0 b1 : Nat) : M Dev :=
-  call { d with rd := wrMem d.rd w b0 b1, log := d.log ++ [(w, b0, b1)] }
+def writeWord (d : Dev) (w b0 b1 : Nat) : MW Unit :=
+  (call (), { d with rd := wrMem d.rd w b0 b1, log := d.log ++ [(w, b0, b1)] })
 
 /-! ## `EepromRange` -/
 
@@ -201,39 +210,39 @@ def eofToOverrun {α : Type} (x : M α) : M α :=
   | _ => x
 
 /-- The `loop` of `<EepromRange as Write>::write`: `written` counts 2 per word even for a padded odd tail. -/
-def writeLoop (m : Mode) : Nat → Dev → Range → List Nat → Nat → M (Nat × Range × Dev)
-  | 0, _, _, _, _ => fail .fuel
+def writeLoop (m : Mode) : Nat → Dev → Range → List Nat → Nat → MW (Nat × Range)
+  | 0, d, _, _, _ => liftW d (fail .fuel)
   | fuel + 1, d, r, buf, written =>
-    if r.endp - r.pos = 0 then ret (written, r, d)
+    if r.endp - r.pos = 0 then liftW d (ret (written, r))
     else
       match buf with
       | b0 :: b1 :: rest =>
-        bind (writeWord d (r.pos / 2) b0 b1) fun d' =>
-        bind (add16 m "write:add" r.pos 2) fun np =>
+        bindW (writeWord d (r.pos / 2) b0 b1) fun _ d' =>
+        bindW (liftW d' (add16 m "write:add" r.pos 2)) fun np d' =>
         writeLoop m fuel d' { r with pos := np } rest (written + 2)
       | [b0] =>
-        bind (writeWord d (r.pos / 2) b0 0) fun d' =>
-        bind (add16 m "write:add" r.pos 2) fun np =>
+        bindW (writeWord d (r.pos / 2) b0 0) fun _ d' =>
+        bindW (liftW d' (add16 m "write:add" r.pos 2)) fun np d' =>
         writeLoop m fuel d' { r with pos := np } [] (written + 2)
-      | [] => ret (written, r, d)
+      | [] => liftW d (ret (written, r))
 
-/-- `<EepromRange as Write>::write(buf)`: returns `written`. -/
-def Range.write (m : Mode) (d : Dev) (r : Range) (buf : List Nat) : M (Nat × Range × Dev) :=
+/-- `<EepromRange as Write>::write(buf)`: returns `written` and the range afterwards. -/
+def Range.write (m : Mode) (d : Dev) (r : Range) (buf : List Nat) : MW (Nat × Range) :=
   writeLoop m (buf.length + 1) d r buf 0
 
 /-- `embedded_io_async::Write::write_all` (default method): `Ok(0)` ⇒ `panic!("write() returned Ok(0)")`;
     `buf = &buf[n..]` panics when `n > buf.len()` (which `write` produces for an odd tail). -/
-def writeAllLoop (m : Mode) : Nat → Dev → Range → List Nat → M (Range × Dev)
-  | 0, _, _, _ => fail .fuel
+def writeAllLoop (m : Mode) : Nat → Dev → Range → List Nat → MW Range
+  | 0, d, _, _ => liftW d (fail .fuel)
   | fuel + 1, d, r, buf =>
-    if buf.length = 0 then ret (r, d)
+    if buf.length = 0 then liftW d (ret r)
     else
-      bind (Range.write m d r buf) fun res =>
-      if res.1 = 0 then (.panic "write_all:zero", 0)
-      else if res.1 > buf.length then (.panic "write_all:slice", 0)
-      else writeAllLoop m fuel res.2.2 res.2.1 (buf.drop res.1)
+      bindW (Range.write m d r buf) fun res d' =>
+      if res.1 = 0 then liftW d' (panicAt "write_all:zero")
+      else if res.1 > buf.length then liftW d' (panicAt "write_all:slice")
+      else writeAllLoop m fuel d' res.2 (buf.drop res.1)
 
-def Range.writeAll (m : Mode) (d : Dev) (r : Range) (buf : List Nat) : M (Range × Dev) :=
+def Range.writeAll (m : Mode) (d : Dev) (r : Range) (buf : List Nat) : MW Range :=
   writeAllLoop m (buf.length + 1) d r buf
 
 /-! ## CRC-8 (poly 0x07, init 0xFF, MSB first, no reflection, no final xor) -/
@@ -310,16 +319,16 @@ def stationAlias (m : Mode) (p : Prov) : M Nat :=
   ret (rd16 res.1)
 
 /-- `SubDeviceEeprom::set_station_alias`. -/
-def setStationAlias (m : Mode) (d : Dev) (alias : Nat) : M Dev :=
-  bind (startAt m 0 14) fun r =>
-  bind (eofToOverrun (Range.readExact m d.prov r 14)) fun res =>
+def setStationAlias (m : Mode) (d : Dev) (alias : Nat) : MW Unit :=
+  bindW (liftW d (startAt m 0 14)) fun r d =>
+  bindW (liftW d (eofToOverrun (Range.readExact m d.prov r 14))) fun res d =>
   let chunk := setRange res.1 Gen.Eeprom.STATION_ALIAS_START (le16 alias)
   let checksum := crc8 chunk
-  bind (startAt m (Gen.Eeprom.STATION_ALIAS_START / 2) 2) fun r1 =>
-  bind (Range.writeAll m d r1 (le16 alias)) fun w1 =>
-  bind (startAt m (Gen.Eeprom.CHECKSUM_START / 2) 2) fun r2 =>
-  bind (Range.writeAll m w1.2 r2 (le16 checksum)) fun w2 =>
-  ret w2.2
+  bindW (liftW d (startAt m (Gen.Eeprom.STATION_ALIAS_START / 2) 2)) fun r1 d =>
+  bindW (Range.writeAll m d r1 (le16 alias)) fun _ d =>
+  bindW (liftW d (startAt m (Gen.Eeprom.CHECKSUM_START / 2) 2)) fun r2 d =>
+  bindW (Range.writeAll m d r2 (le16 checksum)) fun _ d =>
+  liftW d (ret ())
 
 /-- `SubDeviceEeprom::size`: `(u16::from_le_bytes(buf) + 1) * 128`. -/
 def size (m : Mode) (p : Prov) : M Nat :=
